@@ -197,9 +197,12 @@ fn verdict(a: &Args, op: &LogicalOperator) -> String {
     if ls != (0..a.n).collect::<Vec<_>>() {
         out.push("leaves".into());
     }
-    let missing: Vec<usize> = (0..a.edges.len()).filter(|k| !v.seen.contains(k)).collect();
+    // a condition over one relation connects nothing: DPccp never hands it to a join, and the optimizer
+    // never gives it one (`collect_join_tree` refuses such a tree)
+    let missing: Vec<usize> = (0..a.edges.len()).filter(|k| !v.seen.contains(k) && a.edges[*k].0 != a.edges[*k].1).collect();
     let dup: Vec<usize> = (0..a.edges.len()).filter(|k| v.seen.iter().filter(|x| *x == k).count() > 1).collect();
-    for (name, xs) in [("missing", &missing), ("dup", &dup), ("uncovered", &v.uncovered), ("flipped", &v.flipped)] {
+    // (a condition whose left expression is over the right input is fine: `plan_join` resolves either way)
+    for (name, xs) in [("missing", &missing), ("dup", &dup), ("uncovered", &v.uncovered)] {
         if !xs.is_empty() {
             let mut s = (*xs).clone();
             s.sort();
@@ -419,6 +422,8 @@ pub fn generate(seed: u64, cases: usize, out: &mut Vec<String>) {
         "jo opt 2 0:1 50,60",
         "jo opt 3 0:1,1:2 100,1000,10000",
         "jo opt 3 0:1 100,1000,10000",
+        "jo opt 3 0:1,1:2,0:0 100,1000,10000",
+        "jo rows 3 0:1,1:2,0:0 100,1000,10000 0.1,0.1,1.2",
         "jo rows 2 0:1 50,60 0.1.2,1.2.3",
         "jo rows 2 1:0 50,60 0.1.2,1.2.3",
         "jo order 17 - 1,1,1,1,1,1,1,1,1,1,1,1,1,1,1,1,1",
@@ -438,7 +443,13 @@ pub fn generate(seed: u64, cases: usize, out: &mut Vec<String>) {
                 _ => 6,
             };
             let shape = r.below(5);
-            let es = gen_edges(&mut r, n, shape, true);
+            let mut es = gen_edges(&mut r, n, shape, true);
+            if n >= 2 && r.chance(1, 8) {
+                // a condition over one relation: the optimizer leaves such a plan as written
+                let k = r.below(n as u64) as usize;
+                let at = r.below(es.len() as u64 + 1) as usize;
+                es.insert(at, (k, k));
+            }
             let cs = tame_cards(&mut r, n);
             *dist.entry(format!("tame n={} shape={}", n, shape)).or_default() += 1;
             let args = format!("{} {} {}", n, edges_arg(&es), join(&cs));
